@@ -1,5 +1,5 @@
 ENGINES = [
- {"name": "vsim", "path": "vsim/", "serves_properties": ["C13", "C14", "C15", "C16", "C17"],
+ {"name": "vsim", "path": "vsim/", "serves_properties": ["C08", "C13", "C14", "C15", "C16", "C17"],
   "kind_free_text": "deterministic simulator written for this task: seeded PRNG per run, simulated wall/monotonic clock, real tmpfs "
                     "file system behind seams that count, fail, tear and crash every call, fork-per-run driver with watchdogs, "
                     "delta-debugging shrinker, replay files; engines/ hold one workload+oracle per property, models/ the reference models"},
@@ -8,9 +8,6 @@ NOTES = ("Technique studied: deterministic simulation with fault injection only.
          "input and are listed under not_applicable with the reason (DESIGN.md section 0). Known findings: known_findings.json.")
 
 def fill(check, pending):
-    pending.update({
-     "C08": "engine not built yet in this commit (planned: DESIGN.md section 3/C08); not claimed until it is",
-    })
     check("C14", "exploration",
           "Seeded search over lookup histories on a simulated clock and file system: every get_template call of every run "
           "(tens of thousands of runs per quick check, hundreds of thousands thorough) is compared with a reference model that "
@@ -66,3 +63,15 @@ def fill(check, pending):
           "Sampling, not proof. Expiry exactly at stored+timeout accepted either way; dogpile's plug-in is not namespaced by "
           "template (own regions per template there) and has no set(); Beaker/dogpile run single-threaded.",
           "deterministic simulation: seeded histories on a simulated clock + fault injection vs reference cache model", "DESIGN.md 3/C17")
+    check("C08", "exploration",
+          "PARTIAL claim: only the axes of this property that are about process lifetimes and a source of nondeterminism are "
+          "decided here -- module files written by one interpreter and re-loaded by a later one (module directory reuse, "
+          "ModuleTemplate, lookup with module directory / modulename_callable), and PYTHONHASHSEED. Each run is a small "
+          "multi-process history over three real interpreters with different hash seeds sharing a scratch template and module "
+          "directory; every construction path x rendering path (render, render_unicode, render_context, mako-render, "
+          "get_def(name).render) of 2-4 generated programs must agree, and source / code / has_def / list_defs must be the "
+          "template's own. The 'all generated templates' axis is only SAMPLED through feature fragments: it is input "
+          "generation, which this technique does not decide.",
+          "Agreement between paths is the oracle (no reference renderer); program space sampled; three hash seeds per run out of nine.",
+          "deterministic simulation: multi-process history (kill / restart with other PYTHONHASHSEED) + differential agreement across paths",
+          "DESIGN.md 3/C08")
